@@ -101,6 +101,20 @@ Theorem C15v_toplevel_context : forall this t f s,
       flat_map (fun m => if Bool.eqb (mb_method m) false then lex_member (f ++ concat s) m else []) (tl_members t).
 Proof. exact toplevel_context. Qed.
 
+(* a toplevel and the whole module; hence `resolve` (use_define_map of the C15 machine run on the visitor's trace)
+   IS lexical scoping: for every module and every occurrence *)
+Theorem C15v_toplevel_is_lexical_scoping : forall this t f s,
+  trace_res (f :: s) (visit_toplevel this t) = lex_toplevel this (f ++ concat s) t.
+Proof. exact toplevel_ok. Qed.
+
+Theorem C15v_module_is_lexical_scoping : forall this m,
+  trace_res [[]] (visit_module this m) = lex_module this m.
+Proof. exact module_ok. Qed.
+
+Theorem C15v_resolve_is_lexical_scoping : forall this m u,
+  resolve this m u = assoc u (rev (res_uses (lex_module this m))).
+Proof. exact resolve_lexical. Qed.
+
 (* binders put on top of a frame are what a lookup of their names finds; other names are unaffected *)
 Theorem C15v_binders_visible : forall bs x f s,
   (In x (map fst bs) -> exists d, In (x, d) bs /\ lookup x ((rev bs ++ f) :: s) = Some d) /\
@@ -279,6 +293,20 @@ Example C15v_nonvacuous_or_pattern :
     [(9, 2, false, Some 1); (5, 4, false, Some 3); (5, 6, false, Some 3); (5, 10, false, None)]%N.
 Proof. reflexivity. Qed.
 
+(* class C<T>(val a: T) { method m(x: T): int = { let y = x; this }   function f(x: int): int = this }
+   names C=1 T=2 a=3 m=4 x=5 y=6 this=7 f=8: `this` and T resolve inside the method; `this` does not resolve in the function *)
+Definition demo_module : module :=
+  mkModule [] [mkTop true 1 100 101 [mkTParam 2 102 None] [] (Some (TDStruct [(3, 103, TGeneric 2 104)]))
+     [mkMember true 4 105 [] [(5, 106, TGeneric 2 107)] TPrim (Some (EBlock (SLet (PId 6 108) None (EId 5 109) (SFinal (EId 7 110)))));
+      mkMember false 8 111 [] [(5, 112, TPrim)] TPrim (Some (EId 7 113))]].
+
+Example C15v_nonvacuous_module :
+  trace_res [[]] (visit_module 7 demo_module) =
+    [(2, 104, true, Some 102); (2, 107, true, Some 102); (5, 109, false, Some 106); (7, 110, false, Some 101); (7, 113, false, None)] /\
+  lex_module 7 demo_module = trace_res [[]] (visit_module 7 demo_module) /\
+  map (resolve 7 demo_module) [104; 107; 109; 110; 113] = [Some 102; Some 102; Some 106; Some 101; None].
+Proof. repeat split; reflexivity. Qed.
+
 Print Assumptions C15v_machine_is_trace_res.
 Print Assumptions C15v_resolve_is_trace_res.
 Print Assumptions C15v_balance.
@@ -291,6 +319,9 @@ Print Assumptions C15v_pattern_is_lexical_scoping.
 Print Assumptions C15v_member_is_lexical_scoping.
 Print Assumptions C15v_member_body_context.
 Print Assumptions C15v_toplevel_context.
+Print Assumptions C15v_toplevel_is_lexical_scoping.
+Print Assumptions C15v_module_is_lexical_scoping.
+Print Assumptions C15v_resolve_is_lexical_scoping.
 Print Assumptions C15v_binders_visible.
 Print Assumptions C15v_if_let_scope.
 Print Assumptions C15v_if_let_not_visible.
